@@ -119,7 +119,13 @@ type vhWatcher struct {
 	events *[]vhEvent
 }
 
+// the real code calls its watcher with the state lock held; should a callback ever run outside it (and concurrently),
+// the recording must not be the thing that breaks
+var vhEvMu sync.Mutex
+
 func (w *vhWatcher) add(kind, id, k, v string) {
+	vhEvMu.Lock()
+	defer vhEvMu.Unlock()
 	*w.events = append(*w.events, vhEvent{N: w.n, Kind: kind, ID: vhHex(id), K: vhHex(k), V: vhHex(v)})
 }
 func (w *vhWatcher) OnJoin(id string)           { w.add("join", id, "", "") }
@@ -515,6 +521,76 @@ func (w *vhWorld) step(op vhOp) (obs vhObs) {
 		rm := append([]string{}, n.fd.removed...)
 		sort.Strings(rm)
 		obs.Extra = map[string]any{"fd_removed": vhHexAll(rm)}
+	case "race_expire":
+		// concurrency probe (monitor only, not replayed on the model): on node N, one goroutine keeps re-learning
+		// node Ref from a peer's digest while another keeps suspecting and expiring it; a third one applies deltas.
+		// Whatever the interleaving, the notifications - in the order they are delivered - must fold to the final state.
+		n := w.nodes[op.N%nn]
+		ref := vhUnhex(op.Ref)
+		iters := op.I
+		if iters <= 0 {
+			iters = 2000
+		}
+		var wg sync.WaitGroup
+		wg.Add(3)
+		go func() {
+			defer wg.Done()
+			for i := 0; i < iters; i++ {
+				n.state.ApplyDigest(digest{{ID: ref, Addr: "10.9.9.9:7000", Version: 0}})
+			}
+		}()
+		go func() {
+			defer wg.Done()
+			for i := 0; i < iters; i++ {
+				n.fd.mu.Lock()
+				n.fd.levels = map[string]float64{ref: 1e9}
+				n.fd.mu.Unlock()
+				n.state.UpdateLiveness(float64(suspicionThreshold))
+				n.state.RemoveExpiredAt(time.Now().Add(2 * nodeExpiry))
+			}
+		}()
+		go func() {
+			defer wg.Done()
+			for i := 0; i < iters; i++ {
+				n.state.ApplyDelta(delta{{ID: ref, Addr: "10.9.9.9:7000", Entries: []Entry{{Key: "k", Value: "v", Version: uint64(i%3 + 1)}}}})
+			}
+		}()
+		wg.Wait()
+		n.fd.mu.Lock()
+		n.fd.levels = map[string]float64{}
+		n.fd.mu.Unlock()
+	case "race_compact":
+		// concurrency probe (monitor only): node N writes I fresh keys w-<i> on one goroutine while another keeps
+		// deleting a scratch key and compacting; afterwards every w-<i> must be live with its value
+		n := w.nodes[op.N%nn]
+		iters := op.I
+		if iters <= 0 {
+			iters = 2000
+		}
+		var wg sync.WaitGroup
+		wg.Add(2)
+		stop := make(chan struct{})
+		go func() {
+			defer wg.Done()
+			defer close(stop)
+			for i := 0; i < iters; i++ {
+				n.state.UpsertLocal(fmt.Sprintf("w-%d", i), fmt.Sprintf("v%d", i))
+			}
+		}()
+		go func() {
+			defer wg.Done()
+			for j := 0; ; j++ {
+				select {
+				case <-stop:
+					return
+				default:
+				}
+				n.state.UpsertLocal("scratch", fmt.Sprintf("s%d", j))
+				n.state.DeleteLocal("scratch")
+				n.state.CompactLocal(1)
+			}
+		}()
+		wg.Wait()
 	case "join":
 		a, b := w.nodes[op.A%nn], w.nodes[op.B%nn]
 		id, err := a.g.join(b.slAddr)
